@@ -752,6 +752,14 @@ func (w *World) step(s *Step) {
 		w.hist.add("overlap", -1, fmt.Sprintf("%d+%d", ps[a].ID, ps[b].ID))
 		w.probe("overlap_window")
 		// no ordering edge between the two resumed segments: both channel sends happen before either runs on
+		if w.mode != "race" {
+			// serial mode keeps the run a pure function of the plan: the two segments run one after the other
+			w.resumeTask(ps[a], "")
+			synctest.Wait()
+			w.resumeTask(ps[b], "")
+			synctest.Wait()
+			return
+		}
 		w.resumeTask(ps[a], "")
 		w.resumeTask(ps[b], "")
 		synctest.Wait()
